@@ -54,6 +54,10 @@ pub fn random_filter(rng: &mut StdRng) -> Value {
     };
     // a filter may name the same exchange / instrument / underlying more than once: it denotes the same set
     let subset = |rng: &mut StdRng, n: i64| -> Vec<i64> {
+        // a filter built from an empty collection denotes the empty scope (not "no filter")
+        if rng.random_range(0..8) == 0 {
+            return vec![];
+        }
         let mut s = subset(rng, n);
         if rng.random_range(0..3) == 0 {
             let d = s[rng.random_range(0..s.len())];
